@@ -169,7 +169,7 @@ func genLists(capsule, allowDyn bool) func(t *rapid.T) UIn {
 		dyn := allowDyn && rapid.SampledFrom([]bool{false, false, false, true}).Draw(t, "dynamic")
 		base := gen.Type(gen.TypeOpts{Depth: 2, Dynamic: dyn, Capsule: capsule}).Draw(t, "base")
 		n := rapid.SampledFrom([]int{2, 3, 2, 4, 1}).Draw(t, "n")
-		eo := convgen.Opts{Type: gen.TypeOpts{Depth: 2, Dynamic: dyn, Capsule: capsule}, NoOptional: true, NoDynamic: !dyn, MaxEdits: 2}
+		eo := convgen.Opts{Type: gen.TypeOpts{Depth: 2, Dynamic: dyn, Capsule: capsule, Long: 12}, NoOptional: true, NoDynamic: !dyn, MaxEdits: 2}
 		var types []spec.T
 		var shape []string
 		for i := 0; i < n; i++ {
